@@ -14,7 +14,8 @@ META = {
                    "(C06.4) every HashMap/HashSet<Token> access in the pool uses one token root per function and only keyed methods (no iteration); "
                    "(C06.5) token fields are written only in struct literals whose token operand is the function's own token or Token::zero(); "
                    "(C06.6) hand-back sites pass their own token with their own connection (P2)."
-                   " C06.1 requires scheme and authority to enter the key through accessors and clones only; C06.3 checks TokenMap::insert in normal form (entry: Occupied answers the stored token, a token is minted and stored only for Vacant) and that no TokenMap value is ever overwritten or its counter stored from anything but an advance.",
+                   " C06.1 requires scheme and authority to enter the key through accessors and clones only; C06.3 checks TokenMap::insert in normal form (entry: Occupied answers the stored token, a token is minted and stored only for Vacant) and that no TokenMap value is ever overwritten or its counter stored from anything but an advance."
+                   " As built now: TokenMap::insert is a decision table over an abstract HashMap (mapmodel.py): key known / new x counter ordinary / at its maximum -> token answered, map afterwards, counter afterwards; `entry().or_insert_with`, an explicit match on the Entry and `get` + `insert` are one table. New: what is mapped to a token is the caller's key itself (clones only), Pool's map is TokenMap<K> (a digest of the key would let two origins share a token).",
     "trusted_base": ["rustc type/borrow checker", "std HashMap/HashSet keyed-access semantics", "http::uri Scheme/Authority equality is the notion of origin",
                      "PoolInner methods are atomic (&mut self behind a mutex)"],
     "assumptions": ["token counter does not wrap (2^64 inserts)", "user-supplied K: Key has a lawful Eq/Hash (the crate's UriKey is checked)"],
